@@ -1010,6 +1010,10 @@ def oracle_hist_bins(mon, s, pre_range, vals, channels, nbins, scale, kwargs, ou
     nb = nbins if isinstance(nbins, list) else [nbins] * k
     sc = scale if isinstance(scale, list) else [scale] * k
     res = s.resolution()
+    tr = getattr(mon, 'hist_true_res', None)
+    if tr is not None and len(tr) == len(res) and list(s.channels) == list(getattr(mon, 'hist_true_names', [])) \
+            and len(set(s.channels)) == len(s.channels):
+        res = tuple(tr)                      # the driver knows the $PnR it wrote (full-width samples only)
     at = s.amplification_type()
     for j, p in enumerate(pos):
         e = np.asarray(outs[j], dtype=float)
